@@ -120,11 +120,12 @@ Definition send (st : state) (s : nat) (it : item) : option state :=
               else if room c then Some (set_sub st s (push c it)) else None
   end.
 
+(* ghost: every subscription listed in [targets] is owed the item, once per
+   occurrence in the list (the emit loop sends once per list entry) *)
 Fixpoint expect_all (l : list sub) (targets : list nat) (it : item) (i : nat) : list sub :=
   match l with
   | [] => []
-  | c :: r => (if existsb (Nat.eqb i) targets then c_expd c (expd c ++ [it]) else c)
-              :: expect_all r targets it (S i)
+  | c :: r => c_expd c (expd c ++ repeat it (count_occ Nat.eq_dec targets i)) :: expect_all r targets it (S i)
   end.
 
 (* n.sinks[i], n.sinks[last] = n.sinks[last], nil; truncate  (first match only) *)
